@@ -30,12 +30,23 @@ func TestC18Backend(t *testing.T) {
 
 		c.Bubble(func() {
 			tr := newCountTracker()
-			be := newCaseBackend(c, kind, cache.Config{
+			evict := c.Weighted("eviction", 2, 1) == 1
+
+			cfg := cache.Config{
 				Name: "m", Stats: tr, ItemsCountReportInterval: farFuture,
 				TimeToLive: cfgTTL, ExpirationJitter: -1,
 				DeleteExpiredJobInterval: farFuture, DeleteExpiredAfter: farFuture,
-			})
+			}
+			if evict {
+				// evictions are counted by cache_evict only
+				cfg.CountSoftLimit, cfg.EvictFraction = 3, 0.5
+				cfg.EvictionStrategy = cache.EvictionStrategy(c.Pick("strategy", 3))
+				c.Class("eviction-enabled")
+			}
+
+			be := newCaseBackend(c, kind, cfg)
 			d := newMapDriver(c, be, cfgTTL, -1)
+			d.evictable = evict
 			backendOps(c, d, baseKeys, c.Int("nops", 5, 60))
 
 			if c.classes["expireall-over-never-expiring"] || c.classes["deleteall"] || c.classes["delete-missing"] || c.classes["skipread"] {
@@ -47,10 +58,10 @@ func TestC18Backend(t *testing.T) {
 				want   float64
 			}{
 				{cache.MetricHit, d.cnt.hit}, {cache.MetricMiss, d.cnt.miss}, {cache.MetricExpired, d.cnt.expired},
-				{cache.MetricWrite, d.cnt.writes}, {cache.MetricDelete, d.cnt.deletes},
+				{cache.MetricWrite, d.cnt.writes}, {cache.MetricDelete, d.cnt.deletes}, {cache.MetricEvict, d.evicted},
 			} {
 				got := tr.get("m", m.metric)
-				c.Tracef("%s = %v, model %v", m.metric, got, m.want)
+				c.Tracef("%s = %v, model %v (evicted %v)", m.metric, got, m.want, d.evicted)
 				c.Assert(got == m.want, "metric:"+m.metric, "%s = %v after the history, the model counted %v such events", m.metric, got, m.want)
 			}
 		})
